@@ -1,5 +1,6 @@
 import Gmx.Model.Action
 import Gmx.Gen.C23Shapes
+import Gmx.Model.Life
 /-!
 # C23 — user actions complete or cancel exactly once and escrow always goes home
 -/
@@ -210,6 +211,127 @@ theorem state_changing_sites_known :
 
 open Gmx.Gen.C23 in
 theorem close_shape : closeShapeOk = true := by decide
+
+/-! ### The deposit life cycle as executed natively (`Gmx.Life`, tied to the real
+`create_deposit` / `execute_deposit` / `close_deposit` entrypoints with real SPL token movement by
+`harness/h_store/src/bin/life.rs`) -/
+
+section Life
+open Gmx.Life
+
+/-- close policy on the concrete life cycle: the owner always, a keeper only for a terminal
+deposit, nobody else. -/
+theorem life_close_policy (s : St) (who : Who) (u d : Nat) :
+    (close s who u d).isSome = true ↔
+      ∃ dep, s.deps u d = some dep ∧ (who = .user u ∨ (who = .keeper ∧ dep.state ≠ 0)) := by
+  unfold close
+  cases h : s.deps u d with
+  | none => simp
+  | some dep =>
+    simp only [Option.some.injEq, exists_eq_left']
+    by_cases ha : who = .user u ∨ (who = .keeper ∧ dep.state ≠ 0) <;> simp [ha]
+
+/-- closing hands every escrowed token back to the owner and removes the action. -/
+theorem life_close_returns_escrow {s s' : St} {who : Who} {u d : Nat} {dep : Dep}
+    (hd : s.deps u d = some dep) (h : close s who u d = some s') :
+    (s'.users u).long = (s.users u).long + dep.escLong ∧
+    (s'.users u).short = (s.users u).short + dep.escShort ∧ s'.deps u d = none ∧
+    s'.vaultLong = s.vaultLong ∧ s'.vaultShort = s.vaultShort := by
+  unfold close at h
+  simp only [hd] at h
+  split at h
+  · cases h
+  · cases h; simp [setDep, setUser]
+
+/-- an execution changes the action state only out of `pending`, exactly once: afterwards the
+state is terminal and a further execution is rejected. -/
+theorem life_exec_once {s s' : St} {who : Who} {u d fee : Nat} {throw : Bool} {o : Life.Outcome} {paid : Nat}
+    (h : exec s who u d fee throw = some (s', o, paid)) :
+    (∃ dep, s.deps u d = some dep ∧ dep.state = 0) ∧
+    (∃ dep', s'.deps u d = some dep' ∧ dep'.state ≠ 0) ∧
+    ∀ fee' throw', exec s' who u d fee' throw' = none := by
+  unfold exec at h
+  split at h
+  · cases h
+  · rename_i hw
+    cases hd : s.deps u d with
+    | none => simp [hd] at h
+    | some dep =>
+      simp only [hd] at h
+      split at h
+      · cases h
+      · rename_i hs0
+        have hs0' : dep.state = 0 := by simpa using hs0
+        refine ⟨⟨dep, rfl, hs0'⟩, ?_⟩
+        have key : ∀ s'' : St, (∃ dep', s''.deps u d = some dep' ∧ dep'.state ≠ 0) →
+            ∀ fee' throw', exec s'' who u d fee' throw' = none := by
+          intro s'' ⟨dep', hd', hne⟩ fee' throw'
+          unfold exec
+          simp [hw, hd', hne]
+        split at h
+        · cases h
+        · split at h
+          · cases h
+          · split at h
+            · split at h
+              · cases h
+              · cases h
+                have e : ∃ dep', (setDep s u d (some { dep with state := 2 })).deps u d = some dep' ∧ dep'.state ≠ 0 :=
+                  ⟨{ dep with state := 2 }, by simp [setDep], by simp⟩
+                exact ⟨e, key _ e⟩
+            · split at h
+              · split at h
+                · cases h
+                · cases h
+                  have e : ∃ dep', (setDep s u d (some { dep with state := 2 })).deps u d = some dep' ∧ dep'.state ≠ 0 :=
+                    ⟨{ dep with state := 2 }, by simp [setDep], by simp⟩
+                  exact ⟨e, key _ e⟩
+              · cases h
+                have e : ∃ dep', ({ setDep s u d (some { dep with state := 1, escLong := 0, escShort := 0, mt := true }) with
+                      vaultLong := s.vaultLong + dep.escLong, vaultShort := s.vaultShort + dep.escShort,
+                      recLong := s.recLong + dep.escLong, recShort := s.recShort + dep.escShort } : St).deps u d = some dep' ∧ dep'.state ≠ 0 :=
+                  ⟨{ dep with state := 1, escLong := 0, escShort := 0, mt := true }, by simp [setDep], by simp⟩
+                exact ⟨e, key _ e⟩
+
+/-- a soft failure (expired request, unreachable minimum output) cancels the deposit and touches
+neither the escrow nor the vaults nor the recorded balances. -/
+theorem life_soft_failure {s s' : St} {who : Who} {u d fee : Nat} {throw : Bool} {paid : Nat}
+    (h : exec s who u d fee throw = some (s', Life.Outcome.cancelled, paid)) :
+    throw = false ∧ s'.vaultLong = s.vaultLong ∧ s'.vaultShort = s.vaultShort ∧
+    s'.recLong = s.recLong ∧ s'.recShort = s.recShort ∧
+    ∃ dep dep', s.deps u d = some dep ∧ s'.deps u d = some dep' ∧ dep'.state = 2 ∧
+      dep'.escLong = dep.escLong ∧ dep'.escShort = dep.escShort := by
+  unfold exec at h
+  split at h
+  · cases h
+  · cases hd : s.deps u d with
+    | none => simp [hd] at h
+    | some dep =>
+      simp only [hd] at h
+      split at h
+      · cases h
+      · split at h
+        · cases h
+        · split at h
+          · cases h
+          · by_cases ht : throw = true
+            · simp [ht] at h
+            · have ht' : throw = false := by simpa using ht
+              simp only [ht, if_false] at h
+              have done : ∀ {x : St}, x = setDep s u d (some { dep with state := 2 }) →
+                  throw = false ∧ x.vaultLong = s.vaultLong ∧ x.vaultShort = s.vaultShort ∧
+                  x.recLong = s.recLong ∧ x.recShort = s.recShort ∧
+                  ∃ dep0 dep', some dep = some dep0 ∧ x.deps u d = some dep' ∧ dep'.state = 2 ∧
+                    dep'.escLong = dep0.escLong ∧ dep'.escShort = dep0.escShort := by
+                intro x hx; subst hx
+                exact ⟨ht', rfl, rfl, rfl, rfl, dep, { dep with state := 2 }, rfl, by simp [setDep], rfl, rfl, rfl⟩
+              split at h
+              · cases h; exact done rfl
+              · split at h
+                · cases h; exact done rfl
+                · cases h
+
+end Life
 
 /-! ### Non-vacuity -/
 example : actRun ⟨.pending, false, 100, 5, 0, 0, 0, 1000, 0⟩
